@@ -354,6 +354,10 @@ def rich_programs(rng, n, values):
                 break
             slot_vals.append(v)
             cands = [s for st, s in spellings_of(v, rng) if st != "fstr"]
+            if name == "datefmt" and not slot_src:
+                # std.date.to_text accepts Literal::String only: a raw string r"..." is rejected at compile time
+                # ("only supports a string literal as format") -- observed, reported, not a C08 question
+                cands = [s for s in cands if not s.startswith("r")]
             slot_src.append(rng.choice(cands))
         others = {m.start(): other(m.group(1)) for m in _re.finditer(r"~([A-Z]+)~", skel) if m.group(1) not in ("S", "FS")}
         fill.i = 0
